@@ -163,6 +163,9 @@ class RuntimeAssertionFeedback(AssertionFeedback):
         fields['assertion_message'] = assertion_message
         fields['explanation'] = explanation
 
+        # An operand that is itself an error can never satisfy the assertion
+        if left.is_error or right.is_error:
+            self.condition = lambda *condition_args, **condition_kwargs: True
         try:
             super().__init__(left, right, *args, **kwargs)
         except Exception as e:
